@@ -181,4 +181,70 @@ var checks = map[string]Check{
 			}
 		},
 	},
+	"C11": {
+		Level:       "exploration",
+		Rule:        "bounded-exhaustive enumeration per codec (json, xml, form, plain, protobuf, thrift): round trip of a compiled zoo of destination types over boundary values (integer/float extremes, all 256 single-byte strings (valid UTF-8 only where the codec's domain requires), multi-byte runes, lengths 0..17, slices/arrays of 0..3 elements, nested structs) compared with reflect.DeepEqual (nil == empty slice); decoder totality: every string of length <=N over a 10-13 symbol per-codec alphabet, every prefix and 7 single-byte mutations at every offset of valid encodings, into every destination type, with guard bytes around the destination; a case = (codec, type class, value) or (codec, input bytes, destination)",
+		Assumptions: []string{"domain limits are data in scen/c11.go: JSON/XML/protobuf strings must be valid UTF-8, XML strings exclude control characters and fixed arrays, NaN excluded"},
+		Jobs: func(tier string) []Job {
+			n := "3"
+			if tier == "thorough" {
+				n = "5"
+			}
+			return []Job{
+				{Mode: "enum", Name: "c11_roundtrip", Shards: 4},
+				{Mode: "enum", Name: "c11_garbage", Params: "len=" + n, Shards: 16},
+			}
+		},
+	},
+	"C12": {
+		Level:       "exploration",
+		Rule:        "bounded-exhaustive enumeration: every pipe over the registered filter ids up to length 3 (quick) / 5 (thorough, with a 1 MiB payload) plus md5 pipes of length 254, 255 and 256, crossed with payloads {empty, all 256 single bytes, 1 KiB compressible, 1 KiB incompressible}; every single-byte corruption (every offset x 255 values), truncation and extension of md5-packed payloads of length 0..16 (quick) / 48; unregistered ids at every position refused by Append and by Unpack of raw/json/pb frames; live sessions: a call sent through each of 6 pipes over 4 protocols, handler succeeding or failing, reply pipe read from the reply frame (all non-preemptive schedules)",
+		Assumptions: []string{"registered filters in the harness process: gzip ('g', level 5) and md5 ('m')"},
+		Jobs: func(tier string) []Job {
+			l, c, big := "3", "16", "0"
+			if tier == "thorough" {
+				l, c, big = "5", "48", "1"
+			}
+			return []Job{
+				{Mode: "enum", Name: "c12_pipes", Params: "len=" + l + ",big=" + big, Shards: 8},
+				{Mode: "enum", Name: "c12_corrupt", Params: "len=" + c, Shards: 8},
+				sched("c12_live", "", 0, 1),
+			}
+		},
+	},
+	"C10": {
+		Level:       "exploration",
+		Rule:        "(i) both exported mappers on every identifier of length <=5 (quick) / 7 over {A,B,a,b,_,1} x 5 prefixes: total, deterministic, equal to a reference implementation on the sub-language the documentation defines (letter words joined by _ or __), README rows verbatim; (ii) live dispatch: every ordered pair of 10 compiled controller/function registrations (chosen to cover every mapping rule and name-collision class) x 3x3 group nestings x both mappers x unknown-handlers set/unset; after registration every returned name and 10+ near-misses per name are requested as CALL and as PUSH; a case = one (identifier, prefix) or one registration program",
+		Assumptions: []string{"the framework's Fatalf is intercepted by a logger outputter that panics on CRITICAL, so a registration conflict is observable without exiting", "identifier classes with leading/trailing/3+ underscores or digits are checked for totality and determinism only (the documentation does not define their mapping)"},
+		Jobs: func(tier string) []Job {
+			l := "5"
+			if tier == "thorough" {
+				l = "7"
+			}
+			return []Job{
+				{Mode: "enum", Name: "c10_mapper", Params: "len=" + l, Shards: 8},
+				sched("c10_route", "", 0, 16),
+			}
+		},
+	},
+	"C20": {
+		Level:       "model_checking",
+		Rule:        "differential explicit-state enumeration: every first-user operation sequence up to depth 2 (quick) / 3 over the setter alphabet of Message (13 setters), Args (6), pooled Socket (5) and the handler context (10 ways to dirty it x handler returns / fails / panics), release to the (LIFO) pool, re-acquire with pointer identity asserted, then every second-user sequence of length <=2; all public getters, the decode path and the packed bytes must equal those of a freshly constructed object; for contexts the second handler's view and the exact reply bytes are compared with the fresh-context reference",
+		Assumptions: baseAssumptions,
+		Jobs: func(tier string) []Job {
+			d := "2"
+			if tier == "thorough" {
+				d = "3"
+			}
+			var js []Job
+			for _, k := range []string{"message", "args", "socket", "ctx"} {
+				j := sched("c20", "kind="+k+",depth="+d, 0, 1)
+				if tier == "thorough" {
+					j.Shards = 8
+				}
+				js = append(js, j)
+			}
+			return js
+		},
+	},
 }
